@@ -1,5 +1,5 @@
 SPECIFICATION Spec
-CONSTANT Threads = {0, 1, 2, 3, 4, 5, 6, 7, 8}
+CONSTANT Threads = {0, 1, 2, 3, 4, 5, 6, 7, 8, 9, 10, 11, 12}
 CONSTRAINT Mark
 POSTCONDITION Report
 CHECK_DEADLOCK FALSE
